@@ -1372,6 +1372,15 @@ func (g *genCtx) genMarkerObject(marker, fromDef string) Obj {
 		props = append(props, KV{"sharedany", Obj{{"anyOf", []any{Obj{{"$ref", "#/$defs/SharedA"}}, Obj{{"$ref", "#/$defs/SharedB"}}, cb("sa")}}}})
 		props = append(props, KV{"sharedlist", Obj{{"type", "array"}, {"items", Obj{{"anyOf", []any{Obj{{"$ref", "#/$defs/SharedB"}}, cb("sl"), Obj{{"$ref", "#/$defs/SharedA"}}}}}}}})
 	}
+	if fromDef == "" && SameNameTwins && !isSpecial(g.f) && g.feat.Recur && g.pct("hashself", 25) {
+		// (C10 worlds) the root refers to itself as "#": the document's own root, whoever merges this node later
+		// (seeded change s111: the answer for such a node was no longer remembered, and an allOf in ANOTHER document that
+		// merges this root resolved "#" against itself)
+		g.nprop++
+		ru := RefUse{FromTag: g.f.Tag, Prop: fmt.Sprintf("%sr%d", g.f.Tag, g.nprop), Ref: "#", ToTag: g.f.Tag, Spelling: "hash", LocalOnly: true}
+		props = append(props, KV{ru.Prop, Obj{{"$ref", "#"}}})
+		g.f.Refs = append(g.f.Refs, ru)
+	}
 	if fromDef == "Shared" {
 		// the same string enum (same Go type name, same constants) in every package that defines Shared: constants belong
 		// to their package, whatever other packages of the run declare (seeded change s94)
